@@ -495,6 +495,12 @@ func instrumentFile(label string, p *packages.Package, f *ast.File, fc *fileCtx)
 				funcName = recvName(x.Recv.List[0].Type) + "." + x.Name.Name
 			}
 			atomicCallback = isCallbackMethod(info, x)
+			if x.Body != nil && atomicCallback {
+				// (counts as a synchronisation operation of the task: whoever calls back usually
+				// holds a lock of its own, which the simulator cannot see)
+				id := newSite("sync", fc, label, x.Pos(), funcName, "callback-shaped method")
+				fc.insert(x.Body.Lbrace+1, fmt.Sprintf(" __simrt.SyncMark(%d);", id), 0)
+			}
 			if x.Body != nil && !atomicCallback {
 				id := newSite("enter", fc, label, x.Pos(), funcName, "")
 				fc.insert(x.Body.Lbrace+1, fmt.Sprintf(" __simrt.Enter(%d);", id), 0)
